@@ -43,6 +43,9 @@ import JanetModel.Compile.SeqCoreIf
 import JanetModel.Compile.SeqErr
 import JanetModel.Compile.SeqTailAll
 import JanetModel.Compile.SeqVar
+import JanetModel.Compile.SeqFnBody
+import JanetModel.Compile.SeqTailIf
+import JanetModel.Compile.SeqErrAll
 namespace JanetModel.Props.C02
 open JanetModel.Emit
 
@@ -662,6 +665,33 @@ theorem compile_correct_var (p : Program) (f0 : Frame) (rest : List Frame) (V : 
       (var_core p f0 rest V P hP hK G (TF G b) b fuel (tf_correct_b p f0 rest V P hP hK FF G b fuel) x ve hGx hfrag
         { c with cur := q } cq slot0 sc rs pool ps n2 (posOf cur pp) env env1 s s1 v hs hp hl htop hm hcc hev henv)
 
+/-- **The error outcome, every form of the fragment `TF G false`** (error propagation): if `Lang/Sem.eval` of the form is an ERROR
+    `.err ev epos s'` — raised by a core function somewhere inside: in an operand at any depth, in the application itself, in a
+    statement of a `do` / `upscope`, in the value of a `def` — then the VM, started at the form's code, reaches a configuration in the
+    world of `s'` (the effects up to the error happened, nothing after) whose NEXT STEP RAISES THE SAME ERROR VALUE AT THE SAME
+    SOURCE POSITION (`ErrOK`).  Hypotheses as for the success case, plus: the mapping cursor agrees with `Lang/Sem`'s current
+    position (`hcur`), the map is as long as the code, and — in `ErrOK` — the form's code segment sits in the function's code and
+    its map segment in the function's source map (`MapAt`), pool / value table / frame size of the FINAL compile state.  The
+    sub-forms before the failing one run by the success theorem; the failing one by induction; what is compiled after it is never
+    executed and has no semantic run: that it only appends code, map (equal lengths) and pool and never lowers the allocator's
+    `max` is compile-only (`tf_shapeM`, `tf_maxM`; `App`).  `Compile/SeqErrAllBase.lean` (`ErrOK.extend`, `.after`, `.block`),
+    `Compile/SeqErrAll.lean` (`toSlots_err`, `call_err`, `doBody_err`, `tf_err_correct`).  `if` (`TF G true`) is the parameter
+    `ErrIfCase` of `tf_err_correct_gen`. -/
+theorem compile_correct_error (p : Program) (f0 : Frame) (rest : List Frame) (V : Array Value) (P : List JanetModel.Emit.KConst)
+    (hP : P.length < 65536)
+    (hK : ∀ i, i < P.length → (p.defs.getD f0.defIdx default).consts.getD i .nil = litOf V (P.getD i .nil))
+    (FF : FloatFacts) (G : String → Prop)
+    (fuel : Nat) (e : Expr) (opts : Fopts) (c c' : CState) (slot : JSlot) (sc : Scope) (rs : List Scope) (pool : List JanetModel.Emit.KConst)
+    (ps : List (List JanetModel.Emit.KConst)) (n : Nat) (cur : Pos) (env : Env) (s s' : SS) (ev : Value) (epos : Pos)
+    (ht : opts.tail = false) (hh : opts.hint = none)
+    (hs : c.scopes = sc :: rs) (hp : c.pools = pool :: ps) (hl : c.lim ≤ 240) (htop : sc.top = false)
+    (hm : c.map.length = c.buf.length) (hcur : c.cur = cur) (hfrag : TF G false e)
+    (hcomp : cValue fuel opts e c = some (slot, c')) (hsem : eval n cur env e s = .err ev epos s')
+    (henv : EnvS G c.scopes env s.boxes.size sc.ra) :
+    ErrOK p f0 rest V P c c' rs ps env s s' ev epos :=
+  tf_err_correct p f0 rest V P hP hK FF G false (tf_correct_b p f0 rest V P hP hK FF G false) fuel e opts c c' slot sc rs pool ps n cur env
+    s s' ev epos ht hh hs hp hl htop hm hcur hfrag hcomp hsem henv
+
 /-- **Compile correctness, tail position (calls)**: a call `(f e₁ … eₙ)` of a global core function (`G f`, not `apply`, not a
     special form), operands in the fragment `TF G b` (either fragment; `hm` needed when `if` is among them), compiled with the TAIL flag in a scope that is not the top level
     (`janetc_call` with JANET_FOPTS_TAIL): the operands and the pushes are those of the non-tail case, then JOP_TAILCALL of the
@@ -720,8 +750,8 @@ theorem compile_correct_tail_calls (p : Program) (f0 : Frame) (rest : List Frame
     obtain ⟨regs', A, pc', r1, _, r3, r4⟩ := vm k a1 a2 a3 a4 a5 a6 a7
     exact ⟨regs', A, pc', s_a.st.world, r1, r3, r4⟩
 
-/-- **Compile correctness, tail position, every form of the fragment `TF G false`**
-    (`e ::= literal | symbol | (f e ...) | (do e ...) | (upscope e ...) | (def x e)`) compiled with the TAIL flag in a scope that is not the top
+/-- **Compile correctness, tail position, every form of the fragment `TF G b`**
+    (`e ::= literal | symbol | (f e ...) | (do e ...) | (upscope e ...) | (def x e) | (if c e [e])`, `if` when `b = true`) compiled with the TAIL flag in a scope that is not the top
     level — what `janetc_fn` does with the last form of a function body.  `janetc_value` ends with `janetc_return`: nothing when the
     slot is already flagged RETURNED (a tail call; a `do` whose last statement returned), `RETURN_NIL` for the constant nil,
     `LDK t k; RETURN t` for another constant, `RETURN r` for a local; `do` / `upscope` pass the tail flag to their LAST statement
@@ -732,8 +762,11 @@ theorem compile_correct_tail_calls (p : Program) (f0 : Frame) (rest : List Frame
     `doReturn` OF THE VALUE `Lang/Sem` GIVES, IN THE WORLD `Lang/Sem` GIVES.  Hypotheses beyond the non-tail theorem: `NR c.scopes`
     (no resolvable name's slot carries the RETURNED flag — true at function entry; preserved by every non-tail compile, proved
     compile-only as `tf_NR`; without it the statement is false: `janetc_return` emits nothing for a flagged slot) and the
-    map-length invariant.  By an induction of its own (`Compile/SeqTailAll.lean`: `tf_tail_correct`).  `if` in tail position
-    (`TF G true`) is the parameter `TailIfCase` of `tf_tail_correct_gen`, not proved yet. -/
+    map-length invariant.  By an induction of its own (`Compile/SeqTailAll.lean`: `tf_tail_correct_gen`).  `if` in tail position
+    (`Compile/SeqTailIf.lean`: `tail_if_case`): no target register and no JUMP — both branches are compiled with the tail flag and
+    return themselves; the condition is compiled non-tail; the constant-condition folding returns from the live branch (the
+    `RETURN_NIL` that `janetc_value` appends after it is never reached); the branch not taken through the compile-only shape
+    theorem for tail compiles (`tf_shapeT`). -/
 theorem compile_correct_tail (p : Program) (f0 : Frame) (rest : List Frame) (V : Array Value) (P : List JanetModel.Emit.KConst)
     (hP : P.length < 65536)
     (hK : ∀ i, i < P.length → (p.defs.getD f0.defIdx default).consts.getD i .nil = litOf V (P.getD i .nil))
@@ -742,12 +775,34 @@ theorem compile_correct_tail (p : Program) (f0 : Frame) (rest : List Frame) (V :
     (ps : List (List JanetModel.Emit.KConst)) (n : Nat) (cur : Pos) (env env' : Env) (s s' : SS) (v : Value)
     (ht : opts.tail = true) (hh : opts.hint = none)
     (hs : c.scopes = sc :: rs) (hp : c.pools = pool :: ps) (hl : c.lim ≤ 240) (htop : sc.top = false)
-    (hm : c.map.length = c.buf.length) (hfrag : TF G false e)
+    (hm : c.map.length = c.buf.length) (b : Bool) (hfrag : TF G b e)
     (hcomp : cValue fuel opts e c = some (slot, c')) (hsem : eval n cur env e s = .ok (v, env') s')
     (henv : EnvS G c.scopes env s.boxes.size sc.ra) (hnr : NR c.scopes) :
     TailOK p f0 rest V P G c c' slot sc rs pool ps env s s' v :=
-  tf_tail_correct p f0 rest V P hP hK FF G fuel e opts c c' slot sc rs pool ps n cur env env' s s' v ht hh hs hp hl htop hm hfrag hcomp hsem
+  tf_tail_correct_b p f0 rest V P hP hK FF G b fuel e opts c c' slot sc rs pool ps n cur env env' s s' v ht hh hs hp hl htop hm hfrag hcomp hsem
     henv hnr
+
+/-- **The body of a function**: `janetc_fn` compiles the body forms in the function scope with `fnBody` — every form but the last
+    with the drop flag (its slot is not freed), the last one in TAIL position.  For a non-empty body of forms of `TF G b`: if
+    `Lang/Sem.evalSeq` (what `applyFn` runs for a closure's body) gives the value `v` and state `s'`, then the VM, started at the
+    body's code from any configuration of the activation satisfying the run-time invariant, reaches a configuration whose next step
+    is `doReturn` of `v` in the world of `s'` (`TailOK`; compile-side: code / map / pool appended, allocator monotone).  This is
+    `compile_correct_nary_calls` for the leading statements chained with `compile_correct_tail` for the last one; it is the
+    statement a proof about `fn` (closure creation, frame set-up, parameters) will have to connect to. -/
+theorem compile_correct_fn_body (p : Program) (f0 : Frame) (rest : List Frame) (V : Array Value) (P : List JanetModel.Emit.KConst)
+    (hP : P.length < 65536)
+    (hK : ∀ i, i < P.length → (p.defs.getD f0.defIdx default).consts.getD i .nil = litOf V (P.getD i .nil))
+    (FF : FloatFacts) (G : String → Prop)
+    (fuel : Nat) (body : List Expr) (c c' : CState) (sc : Scope) (rs : List Scope) (pool : List JanetModel.Emit.KConst)
+    (ps : List (List JanetModel.Emit.KConst)) (n : Nat) (cur : Pos) (env env' : Env) (s s' : SS) (v : Value)
+    (hs : c.scopes = sc :: rs) (hp : c.pools = pool :: ps) (hl : c.lim ≤ 240) (htop : sc.top = false)
+    (hm : c.map.length = c.buf.length) (b : Bool) (hbody : ∀ e, e ∈ body → TF G b e) (hne : body ≠ [])
+    (hcomp : fnBody (cValue fuel) body c = some c') (hsem : evalSeq n cur env body s = .ok (v, env') s')
+    (henv : EnvS G c.scopes env s.boxes.size sc.ra) (hnr : NR c.scopes) :
+    ∃ slot, TailOK p f0 rest V P G c c' slot sc rs pool ps env s s' v :=
+  fnBody_tail p f0 rest V P G (TF G b) b fuel
+    (tf_correct_b p f0 rest V P hP hK FF G b fuel) (tf_ML G b true fuel) (tf_NR_b G b fuel)
+    (tf_tail_correct_b p f0 rest V P hP hK FF G b fuel) body hbody hne c c' sc rs pool ps n cur env env' s s' v hs hp hl htop hm hcomp hsem henv hnr
 
 /-- non-vacuity: at the entry of a function body without parameters no name is resolvable, so `NR` holds -/
 example (scs : List Scope) (h : ∀ x, lk scs x = none) : NR scs := by
@@ -763,7 +818,9 @@ example : ({ tail := true } : Fopts).tail = true ∧ ({ tail := true } : Fopts).
     `compile_correct_nary_calls` (calls of global core functions with any number of operands: PUSH / PUSH_2 / PUSH_3 grouping,
     operands held together), `compile_correct_local_calls` (calls through a local holding a core function),
     `compile_correct_if` (`if`, jump path), `compile_correct_tail_calls` (a call in tail position: TAILCALL, the next VM step is
-    the return of the value), `compile_correct_call_error` (a raising core function: same error value at the same position).
+    the return of the value), `compile_correct_call_error` / `compile_correct_error` (a raising core function, anywhere inside a form of the if-free
+    fragment: same error value at the same position, same effects), `compile_correct_tail` (every form in tail position),
+    `compile_correct_fn_body` (a function body), `compile_correct_var` (`var` declarations).
     Missing, exactly: (1) calls whose callee is a closure or a computed head (needs closures in the VM relation); (2) `if` whose
     condition is a `do` / `upscope` / `def` form (its slot can be a constant whose value is known only through the run: needs a
     constant-value induction); `var` / `set` (a register that is written: the frame clause "every register
@@ -774,9 +831,7 @@ example : ({ tail := true } : Fopts).tail = true ∧ ({ tail := true } : Fopts).
     n-ary call needs the side condition that no operand is a variable a later operand sets: janet reads operand registers when
     the call is made), destructuring `def`, `while` / `break` (`.brk` is a third outcome of every form; the placeholder rewrite
     needs "no break tag in the code of a fragment form"), `fn` / closures / upvalues (`janetc_popscope`'s `keep` reservations are
-    modelled and compared word for word, not proved); (3) error PROPAGATION (an error raised inside an operand / statement /
-    branch: the code after the failing sub-form has no semantic run; needs `max` monotone in the compile-only shape facts), tail
-    position of the forms other than calls (RETURN after a literal / symbol / `def`; the tail flag passed into `do` / `if`), the
+    modelled and compared word for word, not proved); (3) error propagation through `if` (`ErrIfCase`: the condition or the taken branch raises), the
     top-level scope (`sc.top`: calls are never tail calls there, `def` makes globals); (4) far registers (`lim` > 0xF0: the
     `emit_*_correct` theorems cover the emit layer, not yet connected).  Every construct outside these theorems stays
     translation-validated: model = real compiler word for word, real bytecode run by the Lean VM = real VM = `Lang/Sem`. -/
